@@ -197,6 +197,49 @@ Definition py_step (sname : string) (st : tree * path) (mb : member) : tree * pa
 Definition py_extract (sname : string) (ms : list member) (fs : tree) (dstp : path) : tree :=
   fst (fold_left (py_step sname) ms (fs, dstp)).
 
+(* The same loop with Python's errors: a member that cannot be written raises (NotADirectoryError when a proper prefix of its
+   path is a regular file, IsADirectoryError when a file member meets a directory, FileExistsError when a directory member meets
+   a non-directory), the loop stops there and what the earlier members wrote stays. *)
+Definition node_conflict (m : mnode) (o : option tree) : bool :=
+  match m, o with
+  | MDir, None | MDir, Some (Dir _) => false
+  | MDir, Some _ => true
+  | _, Some (Dir _) => true
+  | _, _ => false
+  end.
+Fixpoint path_blocked (p : path) (o : option tree) : bool :=
+  match p with
+  | [] => false
+  | n :: p' => match o with
+               | None => false
+               | Some (Dir es) => path_blocked p' (lookup1 n es)
+               | Some _ => true
+               end
+  end.
+Definition member_conflict (fs : tree) (mb : member) : bool :=
+  path_blocked (fst mb) (Some fs) || node_conflict (snd mb) (lookup fs (fst mb)).
+
+(* where [py_step] writes the member *)
+Definition py_target (sname : string) (st : tree * path) (mb : member) : member :=
+  let '(fs, dstp) := st in
+  let '(mp, m) := mb in
+  let dst_is_dir := match lookup fs dstp with Some (Dir _) => true | _ => false end in
+  if dst_is_dir && is_root sname mp then (dstp ++ mp, m) else (dstp ++ tl mp, m).
+
+Fixpoint fold_chk {S M : Type} (step : S -> M -> S) (bad : S -> M -> bool) (ms : list M) (st : S) : S * bool :=
+  match ms with
+  | [] => (st, false)
+  | mb :: r => if bad st mb then (st, true) else fold_chk step bad r (step st mb)
+  end.
+
+Definition py_bad (sname : string) (st : tree * path) (mb : member) : bool :=
+  member_conflict (fst st) (py_target sname st mb).
+
+(* (file system afterwards, raised?) *)
+Definition r2l_chk (dst : option tree) (sname dname : string) (t' : tree) : tree * bool :=
+  let '(st, e) := fold_chk (py_step sname) (py_bad sname) (members [sname] t') (world dname dst, [dname]) in
+  (fst st, e).
+
 (* tar chf - -C dirname(src) basename(src)  |  extract_tar_stream(tar, src, dst) *)
 Definition r2l (dst : option tree) (sname dname : string) (t' : tree) : tree :=
   py_extract sname (members [sname] t') (world dname dst) [dname].
